@@ -304,17 +304,21 @@ func (x *runner) oracle(flag string, v *V, js []byte, vreason string) {
 	case err != nil:
 		outcome = "dec-err"
 	default:
-		got := canon(top, read(top, dest.Elem())).Canon()
-		want := canon(top, v).Canon()
+		// exact comparison with the documented result (nil-ness, float bits, saturated times included)
+		got := read(top, dest.Elem()).Canon()
+		want := expect(top, v).Canon()
 		if got != want {
 			outcome = "dec-differs"
-			err = fmt.Errorf("decoded %s", got)
+			err = fmt.Errorf("decoded %s, documented result %s", got, want)
 		}
 	}
 	sreason := top.inexpressible()
 	if outcome == "" {
 		x.r.Count("roundtrip:ok")
-		if sreason != "" || (vreason != "" && !isSoft(vreason)) {
+		if vreason != "" {
+			x.r.Count("roundtrip:documented-change:" + vreason)
+		}
+		if sreason != "" || hardReason(allHard(top, v)) {
 			x.r.Count("roundtrip:ok-though-excluded:" + orExpressible(sreason) + "/" + vreason)
 		}
 
@@ -326,7 +330,7 @@ func (x *runner) oracle(flag string, v *V, js []byte, vreason string) {
 		detail = detail[:1500] + "..."
 	}
 	switch {
-	case sreason == "" && (vreason == "" || isSoft(vreason)):
+	case sreason == "" && !hardReason(allHard(top, v)):
 		x.r.Fail("json-roundtrip", detail, map[string]string{"oracle": "json-roundtrip", "shape": "expressible", "outcome": outcome})
 	default:
 		x.r.Count("excluded:" + orExpressible(sreason) + "/" + vreason)
